@@ -452,10 +452,11 @@ class OrdinalCategoricalDissimilarity(PrecomputedCategoricalDissimilarity):
         indexes = np.argsort(labels)
         matrix = np.zeros((len(labels), len(labels)), dtype=np.float32)
         max_val = 1.0
-        for i in indexes:
-            for j in indexes:
-                matrix[i, j] = abs(p[i] - p[j])
-                max_val = max(matrix[i, j], max_val)
+        # the matrix is indexed by the categories in alphabetical order
+        for i_sorted, i in enumerate(indexes):
+            for j_sorted, j in enumerate(indexes):
+                matrix[i_sorted, j_sorted] = abs(p[i] - p[j])
+                max_val = max(matrix[i_sorted, j_sorted], max_val)
         matrix /= max_val
 
         super().__init__(SortedSet(labels), matrix, delta_empty)
